@@ -33,11 +33,11 @@ Section P8.
     intro P. destruct f; simpl; [|reflexivity|].
     - apply andb_true_iff. split; [|apply all_occs_true; intros p sp; unfold occ_ok; rewrite Hlg; reflexivity].
       apply (forall_nodes_impl V plain_node_cf); [|exact P].
-      intros [p sp|v|items|[cls ctor| |idx|o|cls ctor] ch asr] Hm; cbn [plain_node_cf dict_node_ok] in *; auto.
+      intros [p sp|v|items|[cls ctor| |idx|o|uo|cls ctor] ch asr] Hm; cbn [plain_node_cf dict_node_ok] in *; auto.
       try rewrite Hfa; reflexivity.
     - apply andb_true_iff. split; [|apply all_occs_true; intros p sp; unfold db_occ_ok; rewrite Hdb; reflexivity].
       apply (forall_nodes_impl V plain_node_cf); [|exact P].
-      intros [p sp|v|items|[cls ctor| |idx|o|cls ctor] ch asr] Hm; cbn [plain_node_cf db_node_ok is_bin_kind] in *;
+      intros [p sp|v|items|[cls ctor| |idx|o|uo|cls ctor] ch asr] Hm; cbn [plain_node_cf db_node_ok is_bin_kind] in *;
         try discriminate; try rewrite Hch; reflexivity.
   Qed.
 
@@ -48,7 +48,7 @@ Section P8.
   Lemma inst_exact_smap (f : nat -> pspec -> nat * pspec) (n : snode) : inst_exact V (smap V f n) = inst_exact V n.
   Proof.
     induction n as [p sp|v|items|k ch asr IH] using (snode_ind' V); try reflexivity.
-    rewrite smap_node. destruct k as [cls ctor| |idx|o|cls ctor]; try reflexivity.
+    rewrite smap_node. destruct k as [cls ctor| |idx|o|uo|cls ctor]; try reflexivity.
     cbn [inst_exact]. rewrite has_extras_chmap. f_equal.
     unfold chmap. induction ch as [|[nm c] ch IHc]; [reflexivity|].
     inversion IH as [|? ? H1 H2]; subst. simpl in *. rewrite H1, (IHc H2). reflexivity.
@@ -58,7 +58,7 @@ Section P8.
     (forall p sp, fst (f p sp) = s p) -> as_instance V cf (smap V f n) = as_instance V cf n.
   Proof.
     intro H. destruct n as [p sp|v|items|k ch asr]; try reflexivity.
-    destruct k as [cls ctor| |idx|o|cls ctor]; try (rewrite smap_node; reflexivity).
+    destruct k as [cls ctor| |idx|o|uo|cls ctor]; try (rewrite smap_node; reflexivity).
     change (no_priors V (smap V f (SNode (KModel cls ctor) ch asr)) && (negb (fix_instance cf) || inst_exact V (smap V f (SNode (KModel cls ctor) ch asr)))
             = no_priors V (SNode (KModel cls ctor) ch asr) && (negb (fix_instance cf) || inst_exact V (SNode (KModel cls ctor) ch asr))).
     rewrite (no_priors_smap V f s _ H), inst_exact_smap. reflexivity.
